@@ -1,5 +1,8 @@
 pub mod engine;
+pub mod gen;
 pub mod numgen;
+pub mod proc;
 pub mod props;
+pub mod refexec;
 pub mod refnum;
 pub mod refparse;
